@@ -84,6 +84,7 @@ func (m *CPU) Run(app risc.Application) (int, error) {
 		log.Infou(m.ctx, "L3", m.memoryManagementUnit.l3.String())
 	}()
 	cycle := 0
+	retPending := false
 	for {
 		cycle++
 		m.ctx.VerifTick(0, cycle)
@@ -130,6 +131,14 @@ func (m *CPU) Run(app risc.Application) (int, error) {
 		}
 		log.Info(m.ctx, "\tRegisters: %v", m.ctx.Registers)
 
+		if flush {
+			// A return younger than the branch being flushed is squashed with it
+			ret, retPending = false, false
+		} else if ret || retPending {
+			// Older instructions may still be executing: let them complete first
+			retPending = !m.areExecuteUnitsEmpty()
+			ret = !retPending
+		}
 		if ret {
 			log.Info(m.ctx, "\t🛑 Return")
 			cycle++
@@ -258,6 +267,15 @@ func (m *CPU) isEmpty() bool {
 func (m *CPU) areWriteUnitsEmpty() bool {
 	for _, wu := range m.writeUnits {
 		if !wu.isEmpty() {
+			return false
+		}
+	}
+	return true
+}
+
+func (m *CPU) areExecuteUnitsEmpty() bool {
+	for _, eu := range m.executeUnits {
+		if !eu.isEmpty() {
 			return false
 		}
 	}
